@@ -2,6 +2,7 @@ import OsloPolicy.Model.Tables
 import OsloPolicy.Model.Lexer
 import OsloPolicy.Generated.PyTables
 import OsloPolicy.Generated.RepoTables
+import OsloPolicy.Proofs.ReduceTable
 /-
 Obligations tying the parser/lexer model to /repo's current source: the generated
 tables (rewritten from the working tree on every run) must equal the model's constants.
@@ -15,6 +16,14 @@ open OsloPolicy
 irrelevant because no two patterns can match the same stack (`reducers_nonoverlapping`). -/
 theorem reducers_same : (Generated.reducers.isPerm Tables.reducers) = true := by decide
 theorem reducers_nonoverlapping : Tables.nonOverlapping Generated.reducers = true := by decide
+/-- Rows with equal patterns name the same method (with `reducers_nonoverlapping`: at most
+one row can fire on any stack). -/
+theorem reducers_methods_agree : methodsAgree Generated.reducers = true := by decide
+/-- The table-driven reducer (`Proofs/ReduceTable.lean`: an interpreter of ANY `reducers`
+table, mirroring `ParseState.reduce`), run on the table read from the source today, is
+exactly the hand-written `reduce` of the model. -/
+theorem reducers_drive_model : ∀ st, reduceWith Generated.reducers st = reduce st :=
+  reduceWith_generated
 theorem unreduced_same : Generated.unreducedTokens = Tables.unreducedTokens := by decide
 theorem keywords_same : Generated.keywords = Tables.keywords := by decide
 theorem quotes_same : Generated.quotePairs = Tables.quotePairs := by decide
